@@ -497,6 +497,10 @@ def run(run, model):
     run.try_rule(r11_12, model)
     run.try_rule(r11_14, model)
     run.try_rule(r11_15, model)
+    from rules import c12 as _c12
+    run.rule("R11.16", "an operator token reaches the tree as the operator that was written: token kinds are converted to syntax kinds by "
+                       "discriminant, so the two enums are aligned index for index (shared with C12 R12.1)")
+    run.try_rule(_c12.r12_1, model)
     run.try_rule(r11_6, model)
     run.try_rule(r11_7, model)
     run.try_rule(r11_1, model)
